@@ -20,6 +20,7 @@
 #include "interp_ref.hpp"
 #include "probes.hpp"
 #include "vh.hpp"
+#include "aliases.hpp"
 
 namespace cb = covfie::backend;
 namespace cv = covfie::vector;
@@ -80,7 +81,8 @@ static V pick_bound(vh::Rng & rng)
 template <typename V, std::size_t N>
 static void over_identity(vh::Rng & rng, unsigned nboxes)
 {
-    using backend_t = cb::clamp<cb::identity<cv::vector_d<V, N>>>;
+    // the coordinate descriptor as user code spells it: covfie::vector::int3, ulong4, float2, ... (aliases.hpp)
+    using backend_t = cb::clamp<cb::identity<al::alias_t<V, N>>>;
     using field_t = covfie::field<backend_t>;
     std::string name = std::string("clamp<identity<") + vh::tn<V>() + "," + std::to_string(N) + ">>";
     if (!vh::selected(name)) return;
@@ -490,6 +492,7 @@ int main(int argc, char ** argv)
     bool th = vh::st().thorough;
     unsigned nb = th ? 300 : 24, nf = th ? 200 : 16;
 #if defined(SH_IDENT_INT)
+    al::alias_table_check();
     over_identity<int, 1>(rng, nb);
     over_identity<int, 2>(rng, nb);
     over_identity<int, 3>(rng, nb);
